@@ -50,7 +50,7 @@ CLAIMED = {
  "C06": dict(text="Full on the model for linear alternatives: C06_fits_iff (the decidable 'fits' is exactly: some instance of the alternative is a supertype of the argument), C06_match3_eliminates "
         "(the three-valued matcher answers 'definitely not' exactly when the argument does not fit), C06_filter_keeps_fitting / C06_accept_iff_fits_filter / C06_violation_iff_no_fit (the elimination "
         "constraint is violated iff no alternative fits), C06_bounded_var* (the base-type case through the variable's bounds, repaired D3/D22), C06_fits_iff_needs_linear (counterexample for non-linear "
-        "alternatives). The unique-fit result and the 'between' clause are decided by correspondence + oracle on all concrete arguments of depth <= 2. Beyond linear alternatives (Props/C06Gen.lean, C06g_*, 26): exact characterisation of what fulfill keeps, acceptance iff fit for unipolar alternatives (nested, several variables, repeated variables of one polarity), uniqueness / between clauses for one fulfill call; bipolar alternatives (a variable in both polarities, outside the property's quantifier) are accepted without a fit: proved on the model, replayed on the implementation, recorded in DESIGN.md.",
+        "alternatives). The unique-fit result and the 'between' clause are decided by correspondence + oracle on all concrete arguments of depth <= 2. Beyond linear alternatives (Props/C06Gen.lean, C06g_*, 26): exact characterisation of what fulfill keeps, acceptance iff fit for unipolar alternatives (nested, several variables, repeated variables of one polarity), uniqueness / between clauses for one fulfill call; bipolar alternatives (a variable in both polarities, outside the property's quantifier) are accepted without a fit: proved on the model, replayed on the implementation, recorded in DESIGN.md. Through a whole application (Props/C06Apply.lean, C06a_*, 17): for x ** r(x) [x << ts] with concrete pairwise incomparable alternatives and a compound argument a, instantiate + apply succeeds iff some alternative fits a (C06a_accept_iff_fit), fails with exactly ConstraintViolation otherwise (C06a_reject_is_violation), the whole run is one equation (C06a_run_eq); unique fit: x is bound to the ARGUMENT (not the alternative), the record a << [t] is fulfilled and the result is r[x:=a] (C06a_unique_fit); several fits: the constraint stays attached and pending with exactly the fitting alternatives (C06a_several_fit). Nullary arguments: kernel-checked runs only. Outside the property's quantifier, proved and replayed on the code: with two arguments meeting the constrained variable acceptance depends on their order (x ** x ** x [x << {F(A), F(C)}]: [F(A), F(B)] accepted, [F(B), F(A)] SubtypeMismatch - the same without the constraint: a bare variable is bound to a compound argument exactly) and no join is taken (C06a_two_args_order_matters, C06a_two_base_args_no_join).",
         technique="Lean 4 proof (polarity-indexed fits relation, fuel induction over the matcher) + model/implementation correspondence check",
         ref="6/C06"),
  "C07": dict(text="On the graph model: C07_queried_are_emitted / C07_membership_in_vocabulary (predicate names re-extracted from graph.py, query.py and the vocabulary on every run), C07_op_node, "
@@ -136,6 +136,7 @@ CLAIMED = {
         "C12_output_marked / C12_inputs_marked / C12_class, C12_inline_structure + C12_addExpr_shared_transparent (a tool's inputs denote the producers' whole expressions; the workflow graph is the "
         "graph of the inlined expression with sharing), C12_no_passthrough_link / _flat, C09_workflow_graph. C12_final_exprs / C12_expr_once(_passthrough) (the memo table under re-fixing without passthrough). Partial: typing inside the tools is inherited from the inference model through "
         "correspondence; 'each source gets the most general type acceptable to all its uses' is decided by an oracle (acceptable to every tool, not below an independently computed valid typing, no bound lost); "
+        "End to end (Props/C12Inline.lean, 9): C12_inline_trace_partial - a successful add_workflow IS a trace of one add_expr call per resource the target depends on, inputs before tools, each on the resource's tagged inlined expression (at that moment every inner tag has a node, so every consumption is a memo hit), followed by the links, one tf:input per source, tf:output and the class (C12_inline_marks: exactly those and nothing else); C12_tag_hides_body (add_expr cannot see below a tag that has a node: the quotient statement); the literal form 'one add_expr call on the inlined expression' is false of the model and the code - numbering, per-resource origins, intermediate types, unused inputs - (kernel-checked C12_inline_on_the_nose_fails; the general renaming between the two builds is evaluated on examples, not proved). "
         "workflows whose sources have function types are not generated (aliasing of type objects is not modelled); the RDF (WorkflowGraph) front end is decided by the oracle (isomorphic to the in-memory form). Props/C12Order.lean: add_workflow depends on source_types only up to an explicit equivalence, hence C12_order_unannotated (every listing of a workflow without annotations gives the same graph, no hypothesis on source_types) and C12_order_checked (any pair of listings passing an evaluable test).",
         technique="Lean 4 proof (permutation invariance, memo-table invariants, step-sequence invariants of add_workflow) + model/implementation correspondence check (graph isomorphism)",
         ref="6/C12"),
